@@ -338,6 +338,9 @@ func (env *Env) ghostVar(name string) *Value {
 		pk = env.callee.PkgName
 	}
 	gd := e.specs.Ghosts[pk+"."+name]
+	if gd == nil {
+		gd = e.specs.Ghosts["prelude."+name]
+	}
 	if gd == nil || gd.IsField {
 		return nil
 	}
@@ -789,6 +792,9 @@ func (env *Env) call(e *Expr) Value {
 			v := env.eval(args[0])
 			if isSlice(v.T) {
 				return Value{T: mathInt, Tm: SlRef(v.Tm)}
+			}
+			if v.T != nil && isInterface(v.T) {
+				return Value{T: mathInt, Tm: IfVal(v.Tm)}
 			}
 			t, _ := env.st.tryPtrTerm(v)
 			return Value{T: mathInt, Tm: t}
